@@ -6,10 +6,10 @@ COMMON_TB = [
 
 PROPS = {
     "C01": dict(
-        claim="Lean 4 model of the CBE encoder and decoder (CE/Cbe). Theorem structural_document_roundtrip: for EVERY stream, of any length and nesting, made of containers, Booleans, null, padding, comments, integers of every width and sign in all three event forms, big integers of up to 8192 bits, binary floats (infinities, NaN kinds, zeros and every value stored in 16, 32 or 64 bits except doubles in the float32 subnormal range; narrowing and widening shown inverse by bit arithmetic: widen_exact_normal), markers / references / records / record types with their identifiers, UIDs, strings and resource identifiers of any length, and typed arrays of every byte-multiple element kind sent whole (short form and chunk-header form), the encoder model fails nowhere, the decoder model reads the encoder's bytes back without error and to the end, and the events it delivers carry the same data (canon) - by induction over the stream, each step a prefix-code lemma (one decoder step reads back exactly this event and leaves the following bytes untouched: decodeOne_simple); corollary structural_encoding_determines_data: two such documents with the same bytes carry the same data; per-event prefix-code round trips with arbitrary suffix for every integer width, ULEB128 and little-endian fields. "
+        claim="Lean 4 model of the CBE encoder and decoder (CE/Cbe). Theorem structural_document_roundtrip: for EVERY stream, of any length and nesting, made of containers, Booleans, null, padding, comments, integers of every width and sign in all three event forms, big integers of up to 8192 bits, binary floats (infinities, NaN kinds, zeros and every value stored in 16, 32 or 64 bits except doubles in the float32 subnormal range; narrowing and widening shown inverse by bit arithmetic: widen_exact_normal), decimal floats (all special values, int32 exponents and int64 coefficients; the field never collides with an escape code: decodeDecimal_field) and big decimals of any coefficient size, markers / references / records / record types with their identifiers, UIDs, strings and resource identifiers of any length, and typed arrays of every byte-multiple element kind sent whole (short form and chunk-header form), the encoder model fails nowhere, the decoder model reads the encoder's bytes back without error and to the end, and the events it delivers carry the same data (canon) - by induction over the stream, each step a prefix-code lemma (one decoder step reads back exactly this event and leaves the following bytes untouched: decodeOne_simple); corollary structural_encoding_determines_data: two such documents with the same bytes carry the same data; per-event prefix-code round trips with arbitrary suffix for every integer width, ULEB128 and little-endian fields. "
               "Correspondence of model and implementation (encoder bytes, decoder events) "
               "on generated rules-valid streams; the property oracle canon(decoded)=canon(original) is evaluated by the Lean driver on the implementation's own output",
-        note="partial: the stream-level theorem covers the structural fragment; float32-subnormal doubles, decimal floats, times, bit arrays, media, custom types and arrays sent in several chunks (the encoder's array state) are covered by correspondence + oracle only. "
+        note="partial: the stream-level theorem covers the structural fragment; float32-subnormal doubles, times, bit arrays, media, custom types and arrays sent in several chunks (the encoder's array state) are covered by correspondence + oracle only. "
              "Trusted: Lean kernel; hand-written model tied by the correspondence harness; go-compact-time not modelled (time events: oracle on the implementation only)",
         level="proof", n_quick=6000, n_thorough=200000, shards=16,
         lean_modules=["CE.Props.C01", "CE.Cbe.StreamRoundTrip"],
@@ -82,9 +82,9 @@ PROPS = {
         trusted_base=COMMON_TB + ["rule table translated from /repo/rules/*.go (extract/extract.py) and proved equal to the model table in CE/Gen/Check.lean on every run", "Context methods and rules_event_rcv.go hand-modelled in CE/Rules/Machine.lean, tied by the RULES correspondence (verdict, rejection index, error class, forwarded events)"],
     ),
     "C22": dict(
-        claim="theorems posInt_minimal / negInt_minimal: for every integer below 2^64 the encoder's output length is among the lengths of the encodings the format offers (forms written from the type table, independently of the encoder's switch) and no offered encoding is shorter; posInt_reencode / negInt_reencode: what the decoder emits for an encoder-written integer encodes to the same bytes; structural_encoding_is_a_fixed_point: for EVERY document of structural events (containers, Booleans, null, integers of all widths and forms, big integers up to 8192 bits, binary floats (except float32-subnormal doubles), identifiers, UIDs, strings, resource identifiers and whole typed arrays in short and chunk-header form, comments, padding), of any length and nesting, decoding the encoder's bytes and encoding the delivered events again yields exactly the same bytes (CE/Cbe/Reencode.lean: induction over the stream on top of the C01 stream round trip). "
+        claim="theorems posInt_minimal / negInt_minimal: for every integer below 2^64 the encoder's output length is among the lengths of the encodings the format offers (forms written from the type table, independently of the encoder's switch) and no offered encoding is shorter; posInt_reencode / negInt_reencode: what the decoder emits for an encoder-written integer encodes to the same bytes; structural_encoding_is_a_fixed_point: for EVERY document of structural events (containers, Booleans, null, integers of all widths and forms, big integers up to 8192 bits, binary floats (except float32-subnormal doubles), decimal floats and big decimals, identifiers, UIDs, strings, resource identifiers and whole typed arrays in short and chunk-header form, comments, padding), of any length and nesting, decoding the encoder's bytes and encoding the delivered events again yields exactly the same bytes (CE/Cbe/Reencode.lean: induction over the stream on top of the C01 stream round trip). "
               "Harness: single values (integers in every event form around every width boundary, float bit patterns incl. bfloat16/float32 exactness boundaries and subnormals, strings/arrays of length 0,1,14..17,64,130) are encoded by the real encoder and the length is compared with the driver's independent minimal-length oracle (CBE.MINLEN: significant-bit test for floats, short-header rule for arrays); streams: decode(encode(evs)) encoded again must be byte-identical",
-        note="partial: float narrowest-width and typed-array short-header minimality, and the fixed point for decimal floats / chunked arrays, are decided by the oracle on every run, not yet theorems. Trusted: as C01",
+        note="partial: float narrowest-width and typed-array short-header minimality, and the fixed point for chunked arrays, media and custom types, are decided by the oracle on every run, not yet theorems. Trusted: as C01",
         level="proof", n_quick=9000, n_thorough=600000, shards=16,
         lean_modules=["CE.Props.C22", "CE.Cbe.Minimal", "CE.Cbe.Reencode"],
         rule="two thirds single values from boundary pools and random draws, one third generated rules-valid streams for the idempotence part; distinct by event text",
